@@ -409,6 +409,17 @@ func runScenario(d *driver, kind string) {
 			}
 		}
 		d.create(c)
+		// ... and so must a CreateLog with ANOTHER key or name over the same object storage (a new shard
+		// whose configuration was copied with the bucket of an existing one): the lock store has no entry
+		// for its log ID, object storage holds a checkpoint that does not verify under its key
+		if d.r.Intn(2) == 0 {
+			if d.r.Intn(3) > 0 {
+				d.create(d.newInstance(8, logName, 0, ""))
+			} else {
+				d.create(d.newInstance(7, "other.example/log", 0, ""))
+			}
+			d.stats["create-foreign-over-existing"]++
+		}
 		// foreign key, foreign name, clock before the checkpoint
 		switch d.r.Intn(3) {
 		case 0:
